@@ -87,4 +87,12 @@ harnesses! {
             i += 1;
         }
     }
+
+    /// G6 (quick): a 33-byte string with a valid x and tag 0 (identity), 4 (uncompressed) or 5 (compact) is refused
+    fn g6_p256_pk_bad_tags [unwind = 70] {
+        check!(NistP256::deserialize_pk(&pk_with_tag(0)).is_err(), "identity tag accepted for a public key");
+        check!(NistP256::deserialize_pk(&pk_with_tag(4)).is_err(), "uncompressed tag accepted for a 33-byte public key");
+        check!(NistP256::deserialize_pk(&pk_with_tag(5)).is_err(), "SEC1 compact tag accepted: second encoding of a public key");
+        cover!(true, "reached");
+    }
 }
